@@ -51,13 +51,24 @@ def holdings(containers):
     return cnt
 
 
-def audit(registry, containers, extra=None):
+def audit(registry, containers, extra=None, lazy_gc=False):
     """registry: list of probe objects (the list itself holds one reference to each).
     extra: Counter id -> additional references the harness knowingly holds.
+    lazy_gc: run the cycle collector only when the first comparison disagrees (a disagreement that
+    survives a collection is real; an agreement cannot be produced by garbage).
     Returns list of (obj, refcount_minus_harness, expected_slots)."""
+    if lazy_gc:
+        bad = _audit(registry, containers, extra)
+        if not bad:
+            return bad
     gc.collect()
+    return _audit(registry, containers, extra, collect=True)
+
+
+def _audit(registry, containers, extra, collect=False):
     want = holdings(containers)
-    gc.collect()
+    if collect:
+        gc.collect()
     bad = []
     extra = extra or {}
     i = 0
